@@ -478,7 +478,7 @@ fn opts() -> BoxedStrategy<(LargestOpt, Option<U>, u32)> {
         .boxed()
 }
 
-fn case() -> BoxedStrategy<Case> {
+pub fn case() -> BoxedStrategy<Case> {
     (zone_kind(), (0usize..64, 0u8..8, -172_800i128..=172_800, 0i128..1_000_000_000), (0u8..8, -400_000i128..=400_000, 0i128..1_000_000_000), 0u8..16, small_dur(), small_dur(), opts(), gen::mode(), (prop::bool::ANY, gen::ns_of_day()))
         .prop_map(|(zone, (ti, place, dsec, dns), (k2, d2sec, d2ns), opk, dur, dur2, (largest, smallest, inc), mode, (reject, tod))| {
             let z = zone.zone();
